@@ -150,7 +150,54 @@ fn special_of(case: &Value) -> SpecialConfig {
     SpecialConfig { pad: sp["pad"].as_str().unwrap_or("<pad>").to_string(), tokens: strs("tokens"), prefix: strs("prefix"), suffix: strs("suffix") }
 }
 
+/// Very long inputs (kind "long"): a text of `repeat` copies of `pattern` (more than 65 535 bytes without whitespace, or
+/// with it) through the byte tokenizer and a BPE tokenizer with the given table.  The record only carries what a linear
+/// check needs: the text bytes, the ids and the decoded bytes.
+fn exec_long(case: &Value) -> Vec<Value> {
+    let text: String = get_str(case, "pattern").repeat(get_u(case, "repeat"));
+    let special = SpecialConfig { pad: "<pad>".into(), tokens: vec!["<pad>".into(), "<b>".into()], prefix: vec![], suffix: vec![] };
+    let tab: Vec<Vec<u8>> = case["tab"].as_array().map(|a| a.iter().map(|e| e.as_str().unwrap().as_bytes().to_vec()).collect()).unwrap_or_default();
+    let mut out = vec![];
+    for which in ["bpe", "byte"] {
+        let tmp = std::env::temp_dir().join(format!("tuverif-long-{}-{:?}.bin", std::process::id(), std::thread::current().id()));
+        let built: Result<anyhow::Result<Box<dyn Tokenize>>, String> = if which == "bpe" {
+            let ops: MergeOps = tab.iter().cloned().zip(0..tab.len() as u32).collect();
+            ops.save(&tmp).expect("cannot write merge file");
+            let cfg = BPETokenizerConfig { merge_file: tmp.clone(), max_vocab_size: None, use_graphemes: true };
+            guard(|| BPETokenizer::new(cfg, special.clone()).map(|t| Box::new(t) as Box<dyn Tokenize>))
+        } else {
+            let cfg = ByteTokenizerConfig { use_graphemes: true, pad_to_multiple_of: None, groups: ByteGroups::Bytes, aggregation: GroupAggregation::Mean };
+            guard(|| ByteTokenizer::new(cfg, special.clone()).map(|t| Box::new(t) as Box<dyn Tokenize>))
+        };
+        let _ = std::fs::remove_file(&tmp);
+        let mut st = "ok".to_string();
+        let (ids, dec, vs) = match built {
+            Ok(Ok(tok)) => {
+                let ids = match guard(|| tok.tokenize(&text, true)) {
+                    Ok(Ok(t)) => t.token_ids,
+                    Ok(Err(e)) => { st = format!("err:tokenize:{e}"); vec![] }
+                    Err(m) => { st = format!("panic:tokenize:{m}"); vec![] }
+                };
+                let dec = match guard(|| tok.de_tokenize(&ids, true)) {
+                    Ok(Ok(d)) => d.into_bytes(),
+                    Ok(Err(e)) => { if st == "ok" { st = format!("err:de_tokenize:{e}"); } vec![] }
+                    Err(m) => { if st == "ok" { st = format!("panic:de_tokenize:{m}"); } vec![] }
+                };
+                (ids, dec, tok.vocab_size())
+            }
+            Ok(Err(e)) => { st = format!("err:new:{e}"); (vec![], vec![], 0) }
+            Err(m) => { st = format!("panic:new:{m}"); (vec![], vec![], 0) }
+        };
+        out.push(json!({"st": st, "kind": "long", "which": which, "text": text.as_bytes(), "ids": ids, "dec": dec, "vs": vs,
+                        "case": case}));
+    }
+    out
+}
+
 pub fn exec(case: &Value) -> Vec<Value> {
+    if get_str(case, "kind") == "long" {
+        return exec_long(case);
+    }
     let kind = get_str(case, "kind").to_string();
     let special = special_of(case);
     let mut int = CpInt { map: HashMap::new() };
